@@ -1,16 +1,17 @@
 (* Proofs/ExtFileReuse.v — C19: read() onto a Sequence object that is NOT fresh.
    read_seq.py:43-61 re-creates the rf/grad/adc/shape/trigger/label libraries and empties the two extension type
-   lists, but NOT extensions_library: that one is replaced only when the file has an [EXTENSIONS] section
-   (Model/ExtFile.v read_ext, for any receiving core).
+   lists; whether extensions_library is re-created as well is read from the source (since /repo 9f51bed it is;
+   before, it was replaced only when the file had an [EXTENSIONS] section).  Model/ExtFile.v read_ext, for any
+   receiving core; every statement below is proved for BOTH variants.
    A. a library rebuilt by insert(key_id, data) from rows with distinct non-zero ids is internally consistent;
-   B. the store after read() onto ANY object satisfying the invariant satisfies the invariant again — including
-      the case where the old extension library survives with all its keymap entries: stale entries are harmless
+   B. the store after read() onto ANY object satisfying the invariant satisfies the invariant again — also in
+      the variant where the old extension library survives with all its keymap entries: stale entries are harmless
       because an extension entry is looked up by its full content (type id, ref, next) and decoded against the
       CURRENT tables;
    C. (Props) the variant that keeps the old trigger library is refuted by a computed witness. *)
 From Coq Require Import List Bool ZArith QArith Qcanon Lia Permutation.
 From RecordUpdate Require Import RecordSet.
-From PV Require Import Base.AList Base.QUtil Gen.GenFile Model.File Model.EventLib Model.Seq Model.Labels
+From PV Require Import Base.AList Base.QUtil Gen.GenFile Gen.GenLabels Model.File Model.EventLib Model.Seq Model.Labels
                        Model.LabelEval Model.ExtFile Proofs.SeqSpec Proofs.SeqCache Proofs.SeqCont Proofs.FileProofs
                        Proofs.ExtProofs Proofs.ExtStore Proofs.ExtFileProofs Proofs.ExtFileInv.
 Import ListNotations RecordSetNotations.
@@ -188,7 +189,7 @@ Proof.
   { rewrite Le. destruct (nonempty (ext_l c)).
     - rewrite (reread_unit_lib sec_ext (ext_l c) 3 U1 eq_refl (ext_rows_int _ W Ie)).
       split; [apply rebuild_ext_wf; assumption|apply (rebuild_ok (fun k => k) _ Ie)].
-    - split; assumption. }
+    - destruct read_resets_ext_library; [split; [apply ext_wf_empty|apply lib_inv_empty]|split; assumption]. }
   split.
   - unfold core_inv. rewrite O1, O2, O3, O4, Lt, Ls, Li. repeat (split; try assumption); apply We.
   - split; [apply We|]. rewrite Lt, Ls, Li. split; [exact A2|]. split; [exact B2|]. split; [exact C2|].
@@ -253,7 +254,7 @@ Proof.
   split.
   { rewrite Le. destruct (nonempty (ext_l c)).
     - rewrite (reread_unit_lib sec_ext (ext_l c) 3 U1 eq_refl (ext_rows_int _ W Ie)). apply rebuild_ids_ok. exact Ie.
-    - apply F0. }
+    - destruct read_resets_ext_library; [split; constructor|apply F0]. }
   split; [apply rebuild_ids_ok; exact It|]. split; [apply rebuild_ids_ok; exact Is|]. split; [apply rebuild_ids_ok; exact Ii|].
   split; [exact P1|]. split; [exact P2|]. split; [exact P3|].
   split; [|split].
